@@ -50,6 +50,31 @@ def sym_name(s: sp.Symbol, assum: bool) -> str:
     return f"{s.name}|{items}"
 
 
+def attr_repr(v) -> str:
+    if v is None:
+        return "None"
+    if isinstance(v, type):
+        return str(v.__module__) + "." + v.__qualname__
+    if isinstance(v, str):
+        return "'" + v + "'"
+    if callable(v) and hasattr(v, "__qualname__"):
+        return getattr(v, "__module__", "?") + "." + v.__qualname__
+    return repr(v)
+
+
+def attr_suffix(e) -> str:
+    """Non-SymPy dataclass fields of an @unevaluated instance are part of the node's identity."""
+    import dataclasses
+
+    if not dataclasses.is_dataclass(e):
+        return ""
+    parts = []
+    for f in dataclasses.fields(e):
+        if f.metadata.get("sympify", True) is False:
+            parts.append(f"{f.name}={attr_repr(getattr(e, f.name))}")
+    return "[" + ",".join(parts) + "]" if parts else ""
+
+
 def ser(e, assum: bool = False, atomic_indexed: bool = True) -> str:
     """Serialise one tree."""
     if isinstance(e, (int,)) and not isinstance(e, bool):
@@ -99,7 +124,7 @@ def ser(e, assum: bool = False, atomic_indexed: bool = True) -> str:
     if isinstance(e, sp.Basic):
         head = HEADS.get(type(e))
         if head is None:
-            head = f"(HOther {coq_string(type(e).__name__)})"
+            head = f"(HOther {coq_string(type(e).__name__ + attr_suffix(e))})"
         args = "; ".join(ser(a, assum, atomic_indexed) for a in e.args)
         return f"(App {head} [{args}])"
     if isinstance(e, (tuple, list)):
